@@ -14,7 +14,21 @@ const (
 	BreakpointLra = -2
 )
 
+// groupByNothing: a vector aggregation written without a by/without clause aggregates ALL its series
+// into one series with the empty label set, sum(rate(...)) = sum(rate(...)) by (). Both planners
+// regroup only where a clause is written, so the aggregate was taken per stream and had no effect.
+func groupByNothing(script *logql_parser.LogQLScript) {
+	agg := script.AggOperator
+	if agg == nil && script.TopK != nil {
+		agg = script.TopK.AggOperator
+	}
+	if agg != nil && agg.ByOrWithoutPrefix == nil && agg.ByOrWithoutSuffix == nil {
+		agg.ByOrWithoutSuffix = &logql_parser.ByOrWithout{Fn: "by"}
+	}
+}
+
 func Plan(script *logql_parser.LogQLScript) (shared.RequestProcessorChain, error) {
+	groupByNothing(script)
 	for _, plugin := range plugins.GetLogQLPlannerPlugins() {
 		res, err := plugin.Plan(script)
 		if err == nil {
